@@ -5,6 +5,7 @@
 
 #include <carquet/carquet.h>
 #include <string.h>
+#include "core/once.h"
 #ifdef CARQUET_VERIF
 #include <stdlib.h>
 #endif
@@ -32,7 +33,7 @@
 #endif
 
 static carquet_cpu_info_t g_cpu_info = {0};
-static volatile int g_initialized = 0;
+static carquet_once_t g_init_once = CARQUET_ONCE_INIT;
 
 /* External initialization functions for compression tables */
 extern void carquet_gzip_init_tables(void);
@@ -127,8 +128,9 @@ static void detect_arm_features(void) {
 #endif
 
 carquet_status_t carquet_init(void) {
-    /* Fast path: already initialized */
-    if (g_initialized) {
+    /* Fast path: already initialized. Otherwise exactly one thread runs the
+     * detection; concurrent first callers wait until it has been published. */
+    if (carquet_once_done(&g_init_once) || !carquet_once_begin(&g_init_once)) {
         return CARQUET_OK;
     }
 
@@ -171,22 +173,14 @@ carquet_status_t carquet_init(void) {
     carquet_gzip_init_tables();
     carquet_zstd_init_tables();
 
-    /* Use memory barrier to ensure all writes are visible before flag is set.
-     * Note: For full thread safety, callers should ensure carquet_init()
-     * is called once before spawning threads that use carquet. */
-#if defined(__GNUC__) || defined(__clang__)
-    __atomic_store_n(&g_initialized, 1, __ATOMIC_RELEASE);
-#elif defined(_MSC_VER)
-    _InterlockedExchange((volatile long*)&g_initialized, 1);
-#else
-    g_initialized = 1;
-#endif
+    /* Publish: all writes above are visible before the flag reads as done. */
+    carquet_once_end(&g_init_once);
 
     return CARQUET_OK;
 }
 
 const carquet_cpu_info_t* carquet_get_cpu_info(void) {
-    if (!g_initialized) {
+    if (!carquet_once_done(&g_init_once)) {
         carquet_status_t status = carquet_init();
         (void)status; /* Ignore - we'll return info regardless */
     }
